@@ -3,6 +3,8 @@ package sched
 import (
 	"context"
 	"fmt"
+	"os"
+	"path/filepath"
 	"runtime"
 	"strings"
 	"sync"
@@ -30,6 +32,7 @@ type Scenario struct {
 	Preload     int      `json:"preload,omitempty"` // writes before the scenario (old events, see watch)
 	EmptyStart  bool     `json:"empty,omitempty"`   // do not seed the counter document (oplog starts empty)
 	Watch       bool     `json:"watch,omitempty"`   // record oplog snapshots for the C09 monitors
+	FileStore   bool     `json:"file,omitempty"`    // a real lungo.FileStore (temp file) under the fault wrapper
 	Free        bool     `json:"free,omitempty"`    // free-running stress
 	FreeFor     int      `json:"freeMs,omitempty"`  //
 }
@@ -90,6 +93,13 @@ func Run(sc Scenario, ch Chooser) *Outcome {
 		wo.Catalog = oldCatalog(sc.Preload, 100, !sc.EmptyStart)
 		wo.NoSeed = true
 	}
+	if sc.FileStore {
+		dir, err := os.MkdirTemp("", "a16store")
+		if err == nil {
+			defer os.RemoveAll(dir)
+			wo.FilePath = filepath.Join(dir, "db.bson")
+		}
+	}
 	w, err := NewWorld(wo)
 	if err != nil {
 		out.viol("C16", "setup", "cannot open engine", err.Error())
@@ -103,6 +113,7 @@ func Run(sc Scenario, ch Chooser) *Outcome {
 	setHooks(c.onHook)
 	c.Run()
 	setHooks(nil)
+	w.Store.setHook(nil)
 	out.Trace, out.Schedule, out.Switches = c.trace, c.Schedule, c.Switches
 	out.Deadlocked, out.Stalled, out.Diverged = c.Deadlocked, c.Stalled, c.Diverged
 	for _, r := range c.trace {
